@@ -255,6 +255,20 @@ def nul_discipline(chk, P, unit, funcs, rule="R-NUL"):
                 ok = any(fct[0] == "F" and "cmp(" in fct[1] and x in fct[1] and int(re.findall(r", (\d+)\)$", fct[1])[0]) >= off for fct in st if re.findall(r", (\d+)\)$", fct[1]))
             chk.inst(rule, f, "%s(%s+%d)#%d" % (c["fn"], x, off, k), ok,
                      "%s(%s + %d, ...): %s[0..%d] must be known non-NUL here on every path (otherwise the call starts past the terminator)" % (c["fn"], x, off, x, off - 1), loc=f.loc(c))
+            # a search for character ch from x+1 misses an occurrence at x[0]: x[0] must be accounted for on every path --
+            # x is the position just found by the same search (x[0] == ch) or x[0] was compared with ch
+            if c["fn"] in ("strchr", "strrchr") and off == 1 and len(args(c)) == 2 and cval(args(c)[1]) is not None:
+                ch = cval(args(c)[1])
+                acc = False
+                for fct in st:
+                    if fct[0] == "T" and (fct[1].startswith("%s = strchr(" % x) or fct[1].startswith("%s = strrchr(" % x)):
+                        acc = True      # loop-carried: x is the previous match (facts on x are killed when x is re-assigned)
+                    if fct[0] in ("R", "T", "F") and re.match(r"(\*%s|%s\[0\]) (==|!=) (%d|'.')$" % (re.escape(x), re.escape(x), ch), fct[1]):
+                        acc = True
+                n += 1
+                chk.inst(rule, f, "%s(%s+1)#%d:skip" % (c["fn"], x, k), acc,
+                         "%s(%s + 1, %s): an occurrence of the searched character at %s[0] is skipped unless %s is the previous match or %s[0] was compared with it on every path "
+                         "(a count obtained this way disagrees with a scan that starts at %s[0])" % (c["fn"], x, repr(chr(ch)) if 32 <= ch < 127 else ch, x, x, x, x), loc=f.loc(c))
     return n
 
 
